@@ -339,12 +339,12 @@ impl<'a> Explorer<'a> {
             return;
         }
         let avail = s.sems[sem].avail;
+        let _ = me;
         for o in 0..s.tasks.len() {
-            if o != me {
-                if let Some((qs, qn, AcqState::Pending)) = s.tasks[o].acq {
-                    if qs as usize == sem && qn > avail && s.tasks[o].status != Status::Finished {
-                        s.tasks[o].frozen = true;
-                    }
+            // (the acquiring task itself is not exempt: it may own another, still queued, acquisition)
+            if let Some((qs, qn, AcqState::Pending)) = s.tasks[o].acq {
+                if qs as usize == sem && qn > avail && s.tasks[o].status != Status::Finished {
+                    s.tasks[o].frozen = true;
                 }
             }
         }
